@@ -40,10 +40,12 @@ Cut(sh) ==
 \* A long run that ends INSIDE pass N (failed scaling / KKT solve / line search: after that pass's termination test) and a
 \* run limited to N: the limit is noticed first, at the top of pass N (IPM.tla: Check precedes Scale) - unless the long
 \* run's verdict was itself reached at the top of pass N (lack of progress), in which case the runs are identical.
-InPass == {"NumericalError", "InsufficientProgress"}
+\* (the Long event says where its run ended: `exit_in_pass` = a failing checkpoint after the top of its last pass)
+\* N: the pass in which the long run ended (its last LoopTop; `iterations` may already count that pass when it ends inside it)
 ShortOK(sh) ==
-  IF sh.k = long.iterations /\ long.status \in InPass THEN Identical(sh) \/ Cut(sh)
-  ELSE IF sh.k >= long.iterations /\ long.status \notin {"MaxIterations"} THEN Identical(sh)
+  LET N == long.passes[Len(long.passes)].iter IN
+  IF long.exit_in_pass THEN (IF sh.k > N THEN Identical(sh) ELSE Cut(sh))
+  ELSE IF sh.k >= N /\ long.status \notin {"MaxIterations"} THEN Identical(sh)
   ELSE Cut(sh)
 
 \* the same solver object solved a second time: bit-for-bit the same trajectory and result
